@@ -211,14 +211,36 @@ class TrigStub:
 
   EXACT = None
 
-  def __init__(self):
+  def __init__(self, ctx=None):
     self.rat = {}          # canonical q in (0, 1/2) -> (cos Sym, sin Sym)
     self.base = []         # list of (Sym theta, c Sym, s Sym)
+    self.cctx = ctx        # the harness context (needed in concrete mode)
+
+  def cs_of(self, th):
+    """(cos, sin) of a registered base angle (symbolic mode) or of a float"""
+    for t, c, s in self.base:
+      if t is th: return c, s
+    return math.cos(th), math.sin(th)
+
+  def cexp(self, x):
+    """exp of a purely imaginary symbolic argument i*phi -> cos(phi) + i sin(phi)"""
+    if isinstance(x, SymComplex):
+      if not (x.re.c is not None and x.re.c == 0):
+        raise Unsupported("complex exponential with a non-zero real part")
+      c, s = self.cs(x.im)
+      return SymComplex(c, s)
+    if isinstance(x, Sym):
+      raise Unsupported("complex exponential of a real symbolic argument")
+    return cmath.exp(x)
 
   # ---- symbolic base angles ------------------------------------------
   def angle(self, name, lo=None, hi=None):
     """Registers a symbolic angle; returns the Sym standing for theta.  lo/hi in units of pi (Fractions)
     add the sign facts of that range."""
+    if not cur_mode_sym():
+      ctx = self.cctx
+      c = float(ctx.model.get(name + "_cos", 1)); s = float(ctx.model.get(name + "_sin", 0))
+      return math.atan2(s, c)
     ctx = cur()
     th = ctx.real(name)
     c = ctx.real(name + "_cos"); s = ctx.real(name + "_sin")
